@@ -84,6 +84,7 @@ pub enum Out<T> {
 }
 pub fn call<T>(ctx: &mut Ctx, f: impl FnOnce() -> T) -> Out<T> {
     ctx.calls(1);
+    runner::tick(); // every completed call is progress for the hang watchdog
     match guard(f) {
         Ok(v) => Out::Ret(v),
         Err(m) => Out::Panic(m),
